@@ -266,6 +266,7 @@ type gate struct {
 	mu    sync.Mutex
 	n     int
 	inj   map[int]Topo
+	wire  []string // request fields of every served raw RPC that the store-side result cannot show (ttl, for_cas, key_only, ...)
 	lays  []string // layout at every served raw RPC
 	bats  []string // keys of every served batch RPC
 	rerrs int
@@ -280,7 +281,7 @@ func (g *gate) reset(inj []Inject) {
 	defer g.mu.Unlock()
 	g.n, g.rerrs, g.other = 0, 0, 0
 	g.exceeded = false
-	g.lays, g.bats = nil, nil
+	g.lays, g.bats, g.wire = nil, nil, nil
 	g.inj = map[int]Topo{}
 	for _, i := range inj {
 		g.inj[i.At] = i.Act
@@ -352,11 +353,31 @@ func (g *gate) SendRequest(ctx context.Context, addr string, req *tikvrpc.Reques
 		fmt.Fprintf(os.Stderr, "rpc %d %s served region=%d ver=%d bounds=[%s,%s) layout=%s\n", g.n, req.Type, req.Context.RegionId,
 			req.Context.RegionEpoch.GetVersion(), hx(rg.GetStartKey()), hx(rg.GetEndKey()), g.w.layout())
 	}
+	b01 := func(b bool) int {
+		if b {
+			return 1
+		}
+		return 0
+	}
+	switch req.Type {
+	case tikvrpc.CmdRawPut:
+		r := req.RawPut()
+		g.wire = append(g.wire, fmt.Sprintf("put:%d:%d", b01(r.ForCas), r.Ttl))
+	case tikvrpc.CmdRawDelete:
+		g.wire = append(g.wire, fmt.Sprintf("del:%d", b01(req.RawDelete().ForCas)))
+	case tikvrpc.CmdRawScan:
+		r := req.RawScan()
+		g.wire = append(g.wire, fmt.Sprintf("scan:%d:%d:%d", b01(r.KeyOnly), b01(r.Reverse), r.Limit))
+	case tikvrpc.CmdRawCompareAndSwap:
+		r := req.RawCompareAndSwap()
+		g.wire = append(g.wire, fmt.Sprintf("cas:%d:%d", b01(r.PreviousNotExist), r.Ttl))
+	}
 	switch req.Type {
 	case tikvrpc.CmdRawBatchGet:
 		g.bats = append(g.bats, hxs(g.strips(req.RawBatchGet().Keys)))
 	case tikvrpc.CmdRawBatchDelete:
 		g.bats = append(g.bats, hxs(g.strips(req.RawBatchDelete().Keys)))
+		g.wire = append(g.wire, fmt.Sprintf("bdel:%d", b01(req.RawBatchDelete().ForCas)))
 	case tikvrpc.CmdRawDeleteRange:
 		r := req.RawDeleteRange()
 		g.bats = append(g.bats, hx(g.strip(r.StartKey))+":"+hx(g.stripEnd(r.EndKey)))
@@ -371,6 +392,7 @@ func (g *gate) SendRequest(ctx context.Context, addr string, req *tikvrpc.Reques
 			ks = append(ks, hx(g.strip(p.Key))+":"+hx(p.Value)+":"+strconv.FormatUint(t, 10))
 		}
 		g.bats = append(g.bats, strings.Join(ks, ","))
+		g.wire = append(g.wire, fmt.Sprintf("bput:%d:%d:%d:%d", b01(r.ForCas), r.Ttl, len(r.Ttls), len(r.Pairs)))
 	}
 	return resp, err
 }
@@ -515,6 +537,12 @@ func runSeq(sq Seq, out *bytes.Buffer) {
 		_ = cli.Delete(ctx, []byte("zz"))
 	}
 	for idx, op := range sq.Ops {
+		if op.Name == "setcf" {
+			// the client's own family field: read by every later call that has no per-call option
+			cf = op.CF
+			cli.SetColumnFamily(cf)
+			continue
+		}
 		for _, t := range op.Pre {
 			w.apply(t)
 		}
@@ -549,6 +577,10 @@ func runSeq(sq Seq, out *bytes.Buffer) {
 		if len(g.bats) == 0 {
 			bats = "none"
 		}
+		wire := strings.Join(g.wire, ";")
+		if len(g.wire) == 0 {
+			wire = "none"
+		}
 		if g.exceeded {
 			res = "err does-not-terminate"
 		}
@@ -560,10 +592,10 @@ func runSeq(sq Seq, out *bytes.Buffer) {
 		if opcf == "" {
 			opcf = cf
 		}
-		fmt.Fprintf(out, "OP\t%d\t%d\t%s\t%s\tC=%s\tL=%s\tB=%s\tN=%d,%d,%d\t=>\t%s\n", sq.ID, idx, op.Name, args, opcf, lays, bats, g.n, g.rerrs, exact, res)
+		fmt.Fprintf(out, "OP\t%d\t%d\t%s\t%s\tC=%s\tL=%s\tB=%s\tN=%d,%d,%d\tW=%s\t=>\t%s\n", sq.ID, idx, op.Name, args, opcf, lays, bats, g.n, g.rerrs, exact, wire, res)
 		stop := g.exceeded
 		g.mu.Unlock()
-		tolerated := res == "err injected" || res == "err atomic"
+		tolerated := res == "err injected" || res == "err atomic" || res == "err limit"
 		// ("err unsupported" ends the sequence: the unanswerable GetKeyTTL leaves the store marked unreachable)
 		if stop || (strings.HasPrefix(res, "err") && !tolerated) || strings.HasPrefix(res, "panic") {
 			// no call of these sequences may fail: the oracle has failed on this call, and the
@@ -769,6 +801,18 @@ func (g *genState) bound(emptyOdds int) []byte {
 	}
 	return g.key()
 }
+
+// limits: mostly small (0 included), sometimes exactly MaxRawKVScanLimit (allowed) or beyond it (error before any request)
+func (g *genState) limit(np int) int {
+	switch g.r.Intn(40) {
+	case 0:
+		return 10240
+	case 1:
+		return 10241 + g.r.Intn(3)*5000
+	}
+	return g.r.Intn(np + 2)
+}
+
 func (g *genState) val() []byte {
 	n := g.r.Intn(4)
 	v := make([]byte, n)
@@ -898,11 +942,11 @@ func genSeq(id int, r *rand.Rand, nops int) Seq {
 			op.S, op.E = hx(g.bound(5)), hx(g.bound(4))
 		case "scan":
 			op.S, op.E = hx(g.bound(5)), hx(g.bound(3))
-			op.Limit = r.Intn(np + 2)
+			op.Limit = g.limit(np)
 			op.KeyOnly = r.Intn(4) == 0
 		case "rscan":
 			op.S, op.E = hx(g.bound(12)), hx(g.bound(3))
-			op.Limit = r.Intn(np + 2)
+			op.Limit = g.limit(np)
 			op.KeyOnly = r.Intn(4) == 0
 		case "cas":
 			op.Keys, op.Vals = []string{hx(g.key())}, []string{hx(g.val())}
@@ -913,6 +957,10 @@ func genSeq(id int, r *rand.Rand, nops int) Seq {
 		}
 		if class == "cf" && r.Intn(3) == 0 {
 			op.CF = "cf2"
+		}
+		if class == "cf" && r.Intn(6) == 0 {
+			// calls with a per-call option must not notice; calls without one follow the field
+			sq.Ops = append(sq.Ops, Op{Name: "setcf", CF: []string{"CF_DEFAULT", "cf2", "cf3"}[r.Intn(3)]})
 		}
 		if class == "big" && r.Intn(4) == 0 {
 			g.makeBig(&op)
@@ -1076,6 +1124,24 @@ func directedSeqs(base int) []Seq {
 		{Name: "cas", Keys: []string{a}, Vals: []string{"35"}, Prev: sp("31")}, {Name: "bget", Keys: []string{c, a, e}},
 		{Name: "drange", S: "-", E: "-"},
 	}})
+	// ttl on the wire: per-pair ttls (duplicates: the last one wins) stay aligned with the pairs in every
+	// sub-batch of a 40 KB BatchPutWithTTL; error path and degenerate ranges
+	tk, tv, tt := make([]string, 44), make([]string, 44), make([]uint64, 44)
+	for i := range tk {
+		tk[i], tv[i], tt[i] = hx([]byte{0x62, byte(0x41 + i%40)}), fmt.Sprintf("*%dx%02x", 900+i, 0x30+i%10), uint64(100+i)
+	}
+	seqs = append(seqs, Seq{Stores: 1, Splits: []string{a, c}, Ops: []Op{
+		{Name: "bput", Keys: tk, Vals: tv, TTLs: tt, Exact: true},
+		{Name: "bput", Keys: tk[:30], Vals: tv[10:40], TTLs: tt[5:35], Inj: []Inject{{At: 2, Act: Topo{"split", "6250"}}}},
+		{Name: "put", Keys: []string{a}, Vals: []string{"31"}, TTLs: []uint64{77}},
+		{Name: "bget", Keys: tk[38:]},
+		{Name: "scan", S: "-", E: "-", Limit: 0}, {Name: "scan", S: "-", E: "-", Limit: 10240}, {Name: "scan", S: "-", E: "-", Limit: 10241},
+		{Name: "rscan", S: c, E: "-", Limit: 10241, KeyOnly: true}, {Name: "rscan", S: c, E: "-", Limit: 3, KeyOnly: true},
+		{Name: "scan", S: b, E: b, Limit: 5}, {Name: "scan", S: c, E: b, Limit: 5}, {Name: "rscan", S: b, E: c, Limit: 5}, {Name: "rscan", S: b, E: b, Limit: 5},
+		{Name: "scan", S: "6241", E: "6244", Limit: 2, KeyOnly: true},
+		{Name: "drange", S: c, E: b}, {Name: "drange", S: b, E: b}, {Name: "cksum", S: c, E: b},
+		{Name: "drange", S: "6260", E: "-"}, {Name: "drange", S: "-", E: "6242"}, {Name: "drange", S: "-", E: "-"},
+	}})
 	for i := range seqs {
 		seqs[i].ID = base + i
 		seqs[i].Ops = append(seqs[i].Ops, Op{Name: "scan", S: "-", E: "-", Limit: 5000})
@@ -1105,17 +1171,9 @@ func runConc(id int, r *rand.Rand, out *bytes.Buffer) {
 	for _, s := range []string{"61", "6261", "63"}[:r.Intn(4)] {
 		w.apply(Topo{Kind: "split", Key: s})
 	}
-	if r.Intn(2) == 0 {
-		_ = cli.Put(ctx, keys[0], []byte("i"))
-	}
 	var clock int64
 	var mu sync.Mutex
 	tick := func() int64 { mu.Lock(); defer mu.Unlock(); clock++; return clock }
-	// initial values (read before the workers start)
-	for _, k := range keys {
-		v, _ := cli.Get(ctx, k)
-		fmt.Fprintf(out, "H\t%d\tinit\t%s\t%s\n", id, hx(k), optv(v))
-	}
 	nw := 2 + r.Intn(3)
 	type plan struct {
 		kind       string
@@ -1148,9 +1206,33 @@ func runConc(id int, r *rand.Rand, out *bytes.Buffer) {
 			plans[wi] = append(plans[wi], p)
 		}
 	}
+	// every call carries its family as a per-call option while another goroutine keeps changing the client's
+	// own family field: the option wins, so the calls must not notice (calls WITHOUT an option read the field
+	// unsynchronised, once per request, and promise nothing under a concurrent SetColumnFamily)
+	wcf := rawkv.SetColumnFamily("CF_DEFAULT")
+	_ = cli.Put(ctx, []byte("zz"), []byte("x"), wcf)
+	_ = cli.Delete(ctx, []byte("zz"), wcf)
+	if r.Intn(2) == 0 {
+		_ = cli.Put(ctx, keys[0], []byte("i"), wcf)
+	}
+	for _, k := range keys {
+		v, _ := cli.Get(ctx, k, wcf)
+		fmt.Fprintf(out, "H\t%d\tinit\t%s\t%s\n", id, hx(k), optv(v))
+	}
 	var wg sync.WaitGroup
 	lines := make([][]string, nw)
 	done := make(chan struct{})
+	go func() {
+		for i := 0; ; i++ {
+			select {
+			case <-done:
+				return
+			default:
+			}
+			cli.SetColumnFamily([]string{"cfx", "cfy"}[i%2])
+			runtime.Gosched()
+		}
+	}()
 	topos := make([]Topo, 6)
 	for i := range topos {
 		kinds := []string{"split", "merge", "leader"}
@@ -1177,20 +1259,20 @@ func runConc(id int, r *rand.Rand, out *bytes.Buffer) {
 				var res string
 				switch p.kind {
 				case "get":
-					v, err := cli.Get(ctx, p.k)
+					v, err := cli.Get(ctx, p.k, wcf)
 					if err != nil {
 						res = errKind(err)
 					} else {
 						res = "ok " + optv(v)
 					}
 				case "put":
-					if err := cli.Put(ctx, p.k, p.v); err != nil {
+					if err := cli.Put(ctx, p.k, p.v, wcf); err != nil {
 						res = errKind(err)
 					} else {
 						res = "ok"
 					}
 				case "del":
-					if err := cli.Delete(ctx, p.k); err != nil {
+					if err := cli.Delete(ctx, p.k, wcf); err != nil {
 						res = errKind(err)
 					} else {
 						res = "ok"
@@ -1200,7 +1282,7 @@ func runConc(id int, r *rand.Rand, out *bytes.Buffer) {
 					if !p.absent {
 						prev = p.prev
 					}
-					old, sw, err := cli.CompareAndSwap(ctx, p.k, prev, p.v)
+					old, sw, err := cli.CompareAndSwap(ctx, p.k, prev, p.v, wcf)
 					if err != nil {
 						res = errKind(err)
 					} else {
